@@ -40,6 +40,9 @@ def run(ctx):
     c06.r06_3(ctx, rep, roles, prefix="C02/R02.3")
     r02_4(ctx, rep, adm)
     r02_5(ctx, rep, snd)
+    # catch-up admission (an obsolete snapshot below the watermark would reintroduce collected keys)
+    from . import c18
+    c18.r18_2(ctx, rep, c18.build_model(fx, roles))
 
 
 def loop_body(row, fid):
